@@ -114,7 +114,12 @@ fn expression_strigify_write<'s, W: FmtWrite>(
             stringifier.write_token(&value, None, location)?;
         }
         Expression::LitFloat { value, location } => {
-            let value = value.to_string();
+            // an overflowed literal must be printed as a literal that overflows again
+            let value = if value.is_finite() {
+                value.to_string()
+            } else {
+                "1e999".to_string()
+            };
             stringifier.write_token(&value, None, location)?;
         }
         Expression::LitBool { value, location } => {
